@@ -3,7 +3,7 @@
    arg-min, gather -- composed from the stage models (DESIGN 4, C01/C02/C08).  The finite-difference
    rule and the Richardson rule are oracles (pinv rows), h**n is an oracle (numpy power). *)
 From Coq Require Import ZArith List Bool.
-Require Import NDT.Arith.Ops NDT.Model.Convolve NDT.Model.Richardson NDT.Model.Dea3 NDT.Model.Select.
+Require Import NDT.Arith.Ops NDT.Model.Convolve NDT.Model.Richardson NDT.Model.Dea3 NDT.Model.Select NDT.Model.SelectC.
 Import ListNotations.
 
 Section Pipeline.
@@ -26,6 +26,17 @@ Definition extrapolate (der hs rr : list A) : A * A * A * nat :=
   let '(d1, e1, s1) := rich Op tfact der hs rr in
   let '(d1, e1, s1) := if Nat.ltb 2 (length d1) then (map fst (triples d1), map snd (triples d1), skipn 2 s1) else (d1, e1, s1) in
   let errs := penal Op c_1em8 c_1p5 c_half (ofZ Op 10) d1 e1 in
+  let ix := argmin_mid Op errs in
+  (nthA Op d1 ix, nthA Op errs ix, nthA Op s1 ix, ix).
+
+(* the same for complex estimates: the percentiles are those of limits._complex_percentile (Model/SelectC.v).
+   Returns the table (estimates, penalised errors, steps) and the selection *)
+Definition extrapolate_c_table (der hs rr : list A) : list A * list A * list A :=
+  let '(d1, e1, s1) := rich Op tfact der hs rr in
+  let '(d1, e1, s1) := if Nat.ltb 2 (length d1) then (map fst (triples d1), map snd (triples d1), skipn 2 s1) else (d1, e1, s1) in
+  (d1, penal1 Op c_1em8 c_1p5 (ofZ Op 10) d1 e1, s1).
+Definition extrapolate_c (der hs rr : list A) : A * A * A * nat :=
+  let '(d1, errs, s1) := extrapolate_c_table der hs rr in
   let ix := argmin_mid Op errs in
   (nthA Op d1 ix, nthA Op errs ix, nthA Op s1 ix, ix).
 
